@@ -5,8 +5,18 @@ Sub-checks
            every fault kind one forked re-execution with that fault injected; exhaustive over (step x fault) per case.
   gen      the same enumeration on Hypothesis-generated contents / old states (few cases, each fully enumerated).
   rlimit   real kernel faults, no proxy: the write runs under RLIMIT_FSIZE (short write / EFBIG from write(2)).
-  readers  a reader thread + a reader process loop open().read() on the destination while the writer alternates two
-           contents of different length; every read must be exactly one of the two.
+  anywhere the same enumeration with PROCESS-WIDE proxies (os.*, builtins/io.open, tempfile, time.sleep patched in the
+           forked child, restricted to the sandbox): every write-side I/O call of the write is a step whichever module
+           issues it (a writer that bypasses clematis.io.atomic is seen); buffered files lose their unflushed tail when
+           flush()/close() fails; all targets (thorough also compression="zstd"), payload sizes at 4K/8K/64K/1M boundaries,
+           relative destinations, writer umask 077.
+  writers  two writers to one destination, interleaved deterministically: writer A is stopped before each of its I/O
+           steps, writer B performs a complete write, A goes on (no fault).
+  kernel   destination path is a directory / a symlink / a dangling symlink: real kernel answers, RLIMIT_FSIZE, kills.
+  rlimit   real kernel faults, no proxy: the write runs under RLIMIT_FSIZE (short write / EFBIG from write(2)); limits
+           in the middle, in the last buffer-full and in the last byte of payloads of 0.7K..1M; empty payload.
+  readers  a reader thread + a reader process loop open().read() on the destination AND its sidecar while the writer
+           alternates two contents of different length; every read must be exactly one of the two.
 
 Oracle (per injection; `old` = complete previous content or absent, `new` = complete new content):
   always            every destination (body, sidecar) is byte-for-byte old or new; no other file of the directory changes
@@ -14,7 +24,12 @@ Oracle (per injection; `old` = complete previous content or absent, `new` = comp
   call raised       no new file besides the destinations (temp cleaned); for snapshot writers body must not be new
                     (a sidecar failure never fails the snapshot write)
   killed            temp files may remain but `_pick_latest_snapshot_path`, the `*.jsonl` rotation glob and the name
-                    patterns of snapshot/log discovery never select one
+                    patterns of snapshot/log discovery never select one; differentially: every directory-scanning
+                    reader of the repo (pick/info/load latest, _find_snapshot_file, read_snapshot, console latest,
+                    mem_inspect / mem_compact globs, rotation glob, frontend export) answers the same with the
+                    leftovers present as with them hidden
+  two writers       B returned => every destination == B's content; at the end every destination is completely A's,
+                    B's or the old content; no temp file left
   transient on replace (K in {1,3} << retries=80, errno EACCES/EPERM/EBUSY)  => the call succeeds (documented retry)
   permissions       a successful write keeps the old mode (0o644 when new); a failed write leaves the old file's mode
 """
@@ -45,7 +60,10 @@ RULE = ("Per case (target in atomic_write_bytes/text/json, write_snapshot body+s
         "EIO/ENOSPC/EACCES/EBUSY/EPERM, transient x1/x3 of EACCES/EPERM/EBUSY} is re-executed in a forked child "
         "(kill = os._exit(137)). Non-trivial = fault injected at a step after temp creation. Distinct = (target, step "
         "kind, step index, fault kind, old present?, size class). Contents of `gen` come from Hypothesis; readers: "
-        "OS schedules sampled, oracle exact.")
+        "OS schedules sampled, oracle exact. `anywhere` repeats the enumeration with process-wide proxies in the forked "
+        "child (steps of any module; reduced fault list per operation kind); `writers` enumerates the interleavings "
+        "'A stopped before step i, B writes completely, A resumes' for every i; `kernel`/`rlimit` use real kernel "
+        "faults (EISDIR, symlinks, RLIMIT_FSIZE cutting the payload in its middle / last buffer / last byte).")
 ASSUMPTIONS = [
     "crash model: the process dies between two Python-visible I/O calls (or in the middle of one write); reordering "
     "below the file-system API (power loss) is out of scope",
@@ -65,6 +83,375 @@ A_MOD = "clematis.io.atomic"
 KNOWN_SHORT = "atomic-short-write"
 KNOWN_TMPCLOSE = "atomic-tmp-close-leak"
 TARGETS = ["bytes", "text", "json", "snapshot", "delta", "jsonl", "full"]
+ALL_TARGETS = TARGETS + ["fullz"]  # fullz: write_snapshot_auto(compression="zstd") (name chosen by the writer)
+
+
+# ------------------------------------------------------------------------------------------------ process-wide proxies
+#
+# harness.faults shadows the I/O names of ONE module (clematis.io.atomic).  A writer that lives anywhere else (a
+# "fast path" in snapshot.py, an own temp+rename in log.py, a new helper module) is invisible to it.  The layer below
+# patches the PROCESS (os.*, builtins.open/io.open, tempfile, time.sleep) inside the forked child only, restricted to
+# paths/descriptors under the case's sandbox, so every Python-visible write-side I/O call of the write is a step,
+# whoever issues it.  Read-only opens pass through unrecorded (they are not part of the write).
+
+import builtins as _builtins
+import io as _io
+import tempfile as _tempfile_mod
+import time as _time_mod
+
+_R_WRITE, _R_READ, _R_FTRUNCATE, _R_FSTAT = os.write, os.read, os.ftruncate, os.fstat
+
+
+class GInjector(F.Injector):
+    """Injector for process-wide proxies: re-entrancy guard (a proxied call that is implemented on top of other
+    proxied calls, e.g. tempfile -> os.open, os.makedirs -> os.mkdir, is ONE step) and an optional pause point
+    (before step `pause[0]` the child tells the parent and blocks until told to go on)."""
+
+    def __init__(self, at=-1, fault=None, trace_fd=None, root="/nonexistent/", pause=None, kill2=None):
+        super().__init__(at, fault, trace_fd)
+        self.root = root
+        self.busy = False
+        self.pause = pause  # (step index, notify fd, resume fd)
+        self.kill2 = kill2  # second fault of a sequence: die before step `kill2` (a step of the path taken after `fault`)
+
+    def _trace(self, op, detail, partial):
+        if self.trace_fd is not None:
+            _R_WRITE(self.trace_fd, b"S" + json.dumps([op, detail, partial]).encode() + b"\n")
+
+    def inside(self, p) -> bool:
+        try:
+            if isinstance(p, int):
+                s = os.readlink(f"/proc/self/fd/{p}")
+            else:
+                s = os.fspath(p)
+                if isinstance(s, bytes):
+                    s = os.fsdecode(s)
+                s = os.path.abspath(s)
+        except (TypeError, OSError, ValueError):
+            return False
+        return (s + "/").startswith(self.root)
+
+    def step(self, op, detail, perform, partial=None, on_fail=None):
+        if self.busy:
+            return perform()
+        if self.pause is not None and self.n == self.pause[0]:
+            _R_WRITE(self.pause[1], b"P")
+            _R_READ(self.pause[2], 1)
+        if self.kill2 is not None and self.n == self.kill2:
+            self.steps.append((op, detail, partial is not None))
+            self._trace(op, detail, partial is not None)
+            os._exit(F.KILL_CODE)
+        self.busy = True
+        try:
+            return super().step(op, detail, perform, partial, on_fail)
+        finally:
+            self.busy = False
+
+
+class GFile(F.FileProxy):
+    """File proxy that knows raw from buffered files.
+    raw (buffering=0): a write may be short -> kill_mid / short faults apply (as in harness.faults).
+    buffered/text: write() never returns a short count (op name 'bwrite', no `short` fault); an error reported by
+    flush()/close() means the tail still sitting in the userspace buffer did NOT reach the file (what ENOSPC/EIO/EFBIG
+    at flush time does) — the proxy drops exactly that tail."""
+
+    def __init__(self, inj, real, tag=""):
+        super().__init__(inj, real, tag)
+        object.__setattr__(self, "_raw", isinstance(real, _io.RawIOBase))
+
+    def _lose_pending(self):
+        real = self._real
+        try:
+            fd = real.fileno()
+            before = _R_FSTAT(fd).st_size
+        except Exception:
+            fd, before = None, None
+        try:
+            real.flush()
+        except Exception:
+            pass
+        if fd is not None and not self._raw:
+            try:
+                if _R_FSTAT(fd).st_size > before:
+                    _R_FTRUNCATE(fd, before)
+            except Exception:
+                pass
+
+    def write(self, data):
+        real = self._real
+        half = len(data) // 2
+        if self._raw:
+            return self._inj.step(self._tag + "write", f"{self._label()}:{len(data)}", lambda: real.write(data),
+                                  partial=lambda: real.write(data[:half]), on_fail=lambda: real.write(data[:half]))
+
+        def half_down():
+            real.write(data[:half])
+            real.flush()
+
+        return self._inj.step(self._tag + "bwrite", f"{self._label()}:{len(data)}", lambda: real.write(data),
+                              partial=half_down, on_fail=self._lose_pending)
+
+    def flush(self):
+        return self._inj.step(self._tag + "flush", self._label(), self._real.flush, on_fail=self._lose_pending)
+
+    def close(self):
+        real = self._real
+        if getattr(real, "closed", False):
+            return None
+
+        def failing_close():
+            self._lose_pending()
+            try:
+                real.close()
+            except Exception:
+                pass
+
+        return self._inj.step(self._tag + "close", self._label(), real.close, on_fail=failing_close)
+
+
+def install_global(inj: GInjector) -> None:
+    """Patch the process. ONLY for a forked child that never returns."""
+    R = {n: getattr(os, n) for n in ("open", "close", "fsync", "fdatasync", "write", "ftruncate", "truncate", "replace",
+                                     "rename", "link", "symlink", "chmod", "fchmod", "unlink", "remove", "mkdir",
+                                     "makedirs", "rmdir")}
+    base, fdn = F._base, F._fd_name
+
+    def quiet(fn, *a):
+        def run():
+            try:
+                fn(*a)
+            except OSError:
+                pass
+        return run
+
+    def p_open(path, flags, mode=0o777, *, dir_fd=None):
+        if dir_fd is None and inj.inside(path):
+            return inj.step("os.open", base(path), lambda: R["open"](path, flags, mode))
+        return R["open"](path, flags, mode, dir_fd=dir_fd)
+
+    def p_close(fd):
+        if inj.inside(fd):
+            return inj.step("os.close", fdn(fd), lambda: R["close"](fd), on_fail=quiet(R["close"], fd))
+        return R["close"](fd)
+
+    def p_fsync(fd):
+        fdi = fd if isinstance(fd, int) else fd.fileno()
+        if inj.inside(fdi):
+            return inj.step("fsync", fdn(fdi), lambda: R["fsync"](fd))
+        return R["fsync"](fd)
+
+    def p_fdatasync(fd):
+        fdi = fd if isinstance(fd, int) else fd.fileno()
+        if inj.inside(fdi):
+            return inj.step("fdatasync", fdn(fdi), lambda: R["fdatasync"](fd))
+        return R["fdatasync"](fd)
+
+    def p_write(fd, data):
+        if inj.inside(fd):
+            half = len(data) // 2
+            return inj.step("os.write", f"{fdn(fd)}:{len(data)}", lambda: R["write"](fd, data),
+                            partial=lambda: R["write"](fd, data[:half]), on_fail=lambda: R["write"](fd, data[:half]))
+        return R["write"](fd, data)
+
+    def p_ftruncate(fd, n):
+        if inj.inside(fd):
+            return inj.step("ftruncate", fdn(fd), lambda: R["ftruncate"](fd, n))
+        return R["ftruncate"](fd, n)
+
+    def p_truncate(path, n):
+        if inj.inside(path):
+            return inj.step("truncate", base(path), lambda: R["truncate"](path, n))
+        return R["truncate"](path, n)
+
+    def two(name, opname):
+        def f(src, dst, **kw):
+            if not kw and (inj.inside(src) or inj.inside(dst)):
+                return inj.step(opname, f"{base(src)}->{base(dst)}", lambda: R[name](src, dst))
+            return R[name](src, dst, **kw)
+        return f
+
+    def one(name, opname):
+        def f(path, *a, **kw):
+            if inj.inside(path) and not kw.get("dir_fd"):
+                return inj.step(opname, base(path), lambda: R[name](path, *a, **kw))
+            return R[name](path, *a, **kw)
+        return f
+
+    def fd_copy(name):
+        real = getattr(os, name, None)
+        if real is None:
+            return None
+
+        def f(*a, **kw):
+            fds = [x for x in a[:2] if isinstance(x, int)]
+            out_fd = (fds[0] if name == "sendfile" else fds[-1]) if fds else None  # sendfile(out, in..) / copy_file_range(src, dst..)
+            if out_fd is not None and inj.inside(out_fd):
+                return inj.step(name, fdn(out_fd), lambda: real(*a, **kw))
+            return real(*a, **kw)
+        return f
+
+    for nm in ("sendfile", "copy_file_range"):
+        px = fd_copy(nm)
+        if px is not None:
+            setattr(os, nm, px)
+    os.open, os.close, os.fsync, os.fdatasync, os.write = p_open, p_close, p_fsync, p_fdatasync, p_write
+    os.ftruncate, os.truncate = p_ftruncate, p_truncate
+    os.replace, os.rename, os.link, os.symlink = two("replace", "replace"), two("rename", "rename"), two("link", "link"), \
+        two("symlink", "symlink")
+    os.chmod, os.fchmod = one("chmod", "chmod"), one("fchmod", "chmod")
+    os.unlink, os.remove, os.rmdir = one("unlink", "unlink"), one("remove", "unlink"), one("rmdir", "rmdir")
+    os.mkdir, os.makedirs = one("mkdir", "mkdir"), one("makedirs", "mkdir")
+
+    real_open = _builtins.open
+
+    def b_open(file, mode="r", *a, **kw):
+        if isinstance(mode, str) and any(c in mode for c in "wax+") and inj.inside(file):
+            label = fdn(file) if isinstance(file, int) else base(file)
+            return inj.step(f"open:{mode}", label, lambda: GFile(inj, real_open(file, mode, *a, **kw)))
+        return real_open(file, mode, *a, **kw)
+
+    _builtins.open = b_open
+    _io.open = b_open
+
+    r_ntf, r_mkstemp = _tempfile_mod.NamedTemporaryFile, _tempfile_mod.mkstemp
+
+    def t_ntf(*a, **kw):
+        label = f"{kw.get('prefix') or ''}*{kw.get('suffix') or ''}"
+        return inj.step("mktemp", label, lambda: GFile(inj, r_ntf(*a, **kw), tag="tmpf."))
+
+    def t_mkstemp(*a, **kw):
+        label = f"{kw.get('prefix') or ''}*{kw.get('suffix') or ''}"
+        return inj.step("mktemp", label, lambda: r_mkstemp(*a, **kw))
+
+    _tempfile_mod.NamedTemporaryFile, _tempfile_mod.mkstemp = t_ntf, t_mkstemp
+
+    def no_sleep(_secs):
+        inj.sleeps += 1
+
+    _time_mod.sleep = no_sleep
+
+
+def run_child(fn: Callable[[], Any], setup: Callable[[F.Injector], None], at: int = -1, fault: Optional[F.Fault] = None,
+              root: str = "/nonexistent/", prepare: Optional[Callable[[], None]] = None, pause_at: Optional[int] = None,
+              on_pause: Optional[Callable[[], None]] = None, kill2: Optional[int] = None) -> Tuple[F.ChildResult, bool]:
+    """harness.faults.run_forked with a pluggable proxy installation (`setup(inj)` runs in the child) and an optional
+    pause point: the child blocks before step `pause_at`, the parent runs `on_pause()` and lets it go on.
+    Returns (result, paused?). Always reaps the child."""
+    fault = fault or F.Fault()
+    r, w = os.pipe()
+    n_r = n_w = c_r = c_w = None
+    if pause_at is not None:
+        n_r, n_w = os.pipe()
+        c_r, c_w = os.pipe()
+    pid = os.fork()
+    if pid == 0:  # ---- child: never returns
+        code = 70
+        try:
+            os.close(r)
+            if pause_at is not None:
+                os.close(n_r)
+                os.close(c_w)
+            if prepare is not None:
+                prepare()
+            inj = GInjector(at, fault, trace_fd=w, root=root, pause=None if pause_at is None else (pause_at, n_w, c_r),
+                            kill2=kill2)
+            setup(inj)
+            try:
+                ret = fn()
+                out = {"outcome": "ok", "ret": ret if isinstance(ret, (str, int, float, bool, type(None))) else repr(ret)[:200]}
+                code = 0
+            except BaseException as e:  # noqa: BLE001 - reported to the parent, which decides
+                out = {"outcome": "exc", "type": type(e).__name__, "errno": getattr(e, "errno", None), "msg": str(e)[:300]}
+                code = 3
+            out["sleeps"] = inj.sleeps
+            _R_WRITE(w, b"R" + json.dumps(out).encode() + b"\n")
+        finally:
+            os._exit(code)
+    # ---- parent
+    os.close(w)
+    paused = False
+    chunks = []
+    try:
+        if pause_at is not None:
+            os.close(n_w)
+            os.close(c_r)
+            try:
+                trace_open = True
+                while True:  # wait for the pause message, draining the trace pipe meanwhile (it must never fill up)
+                    ready, _, _ = select.select([n_r] + ([r] if trace_open else []), [], [])
+                    if r in ready:
+                        b = os.read(r, 65536)
+                        if b:
+                            chunks.append(b)
+                        else:
+                            trace_open = False
+                    if n_r in ready:
+                        paused = os.read(n_r, 1) == b"P"  # EOF: the child ended before reaching the step
+                        break
+                if paused and on_pause is not None:
+                    on_pause()
+            finally:
+                try:
+                    os.write(c_w, b"G")
+                except OSError:
+                    pass
+                os.close(c_w)
+                os.close(n_r)
+        while True:
+            b = os.read(r, 65536)
+            if not b:
+                break
+            chunks.append(b)
+    finally:
+        os.close(r)
+        _, status = os.waitpid(pid, 0)
+    res = F.ChildResult()
+    for line in b"".join(chunks).split(b"\n"):
+        if line[:1] == b"S":
+            op, d, p = json.loads(line[1:])
+            res.steps.append((op, d, bool(p)))
+        elif line[:1] == b"R":
+            out = json.loads(line[1:])
+            res.outcome = out["outcome"]
+            res.sleeps = out.get("sleeps", 0)
+            res.ret = out.get("ret")
+            if res.outcome == "exc":
+                res.exc = {k: out.get(k) for k in ("type", "errno", "msg")}
+    code = os.waitstatus_to_exitcode(status)
+    if code == F.KILL_CODE:
+        if not fault.is_kill and kill2 is None:
+            raise F.ForkHarnessError(f"child died with {F.KILL_CODE} but fault was {fault.name}")
+        res.outcome = "killed"
+    elif code in (0, 3) and res.outcome in ("ok", "exc"):
+        if (fault.is_kill and 0 <= at < len(res.steps)) or (kill2 is not None and 0 <= kill2 < len(res.steps)):
+            raise F.ForkHarnessError(f"kill fault at step {at}/{kill2} did not fire: {res.trace()}")
+    else:
+        raise F.ForkHarnessError(f"child ended with status {code}, outcome {res.outcome!r}, trace {res.trace()}")
+    return res, paused
+
+
+EXTRA_ERRNOS_QUICK = ["ENOENT"]
+EXTRA_ERRNOS_THOROUGH = ["ENOENT", "EROFS", "EDQUOT", "EINTR", "EEXIST"]
+
+
+def fault_kinds_for(op: str, has_partial: bool, scope: str, extra: Tuple[str, ...] = ()) -> List[str]:
+    """Fault names enumerated for one step. scope 'atomic': harness.faults' full list (+ extra errnos);
+    scope 'global' (every injection is a fork): a reduced list chosen per operation kind."""
+    if scope != "global":
+        return [k for k in F.fault_kinds(has_partial) if not (k == "short" and op.endswith("bwrite"))] + \
+               [f"raise:{e}" for e in extra]
+    out = ["kill_before", "kill_after"]
+    if has_partial:
+        out.append("kill_mid")
+        if not op.endswith("bwrite"):
+            out.append("short")
+    out += ["raise:EIO", "raise:EACCES"]
+    if op.endswith(("write", "flush", "close", "fsync", "mktemp")) or op.startswith("open:"):
+        out.append("raise:ENOSPC")
+    if op in ("replace", "rename", "link"):
+        out += ["raise:ENOENT", "transient1:EBUSY", "transient3:EACCES"]
+    out += [f"raise:{e}" for e in extra if f"raise:{e}" not in out]
+    return out
 
 
 # ------------------------------------------------------------------------------------------------ contents
@@ -193,9 +580,22 @@ class Env:
         # a later, fault-free, much SHORTER write to the same destination(s): (call, {dest name: expected bytes})
         self.follow: Optional[Tuple[Callable[[], Any], Dict[str, bytes]]] = None
         self.suffixes: Tuple[str, ...] = ()
+        self.scope = case.get("scope", "atomic")  # which proxies record/inject: clematis.io.atomic only | process-wide
         self._env_saved = {k: os.environ.get(k) for k in ("CLEMATIS_LOG_DIR", "CLEMATIS_SNAPSHOT_DIR")}
         os.environ["CLEMATIS_SNAPSHOT_DIR"] = self.scratch("snapenv")
         os.environ["CLEMATIS_LOG_DIR"] = self.scratch("logenv")
+        self.root = os.path.realpath(self.sandbox) + "/"
+        # optional dimensions: the writer's umask, and destinations given relative to the working directory
+        self._umask_saved = os.umask(int(case["umask"])) if case.get("umask") is not None else None
+        self._cwd_saved = None
+        if case.get("pathstyle") == "rel":
+            self._cwd_saved = os.getcwd()
+            os.chdir(self.sandbox)
+
+    @property
+    def wdir(self) -> str:
+        """The work directory as the writer is told it (relative for pathstyle 'rel')."""
+        return "w" if self._cwd_saved is not None else self.w
 
     def scratch(self, name: str) -> str:
         p = os.path.join(self.sandbox, name)
@@ -241,6 +641,10 @@ class Env:
         return {d.name for d in self.dests}
 
     def close(self) -> None:
+        if self._cwd_saved is not None:
+            os.chdir(self._cwd_saved)
+        if self._umask_saved is not None:
+            os.umask(self._umask_saved)
         for k, v in self._env_saved.items():
             if v is None:
                 os.environ.pop(k, None)
@@ -255,6 +659,15 @@ OLD_SIDECAR = b'{"created_at": "1979-12-31T00:00:00Z", "schema_version": "v0"}\n
 def _read(p: str) -> bytes:
     with open(p, "rb") as f:
         return f.read()
+
+
+def _quiet_stderr(fn):
+    import contextlib
+
+    def run(*a, **kw):
+        with contextlib.redirect_stderr(_io.StringIO()):
+            return fn(*a, **kw)
+    return run
 
 
 FOLLOW = {"lit": "7a"}  # the payload of the follow-up write (a few bytes in every target's encoding)
@@ -275,7 +688,7 @@ def prepare(case: dict, base_dir: Optional[str] = FAST_TMP) -> Env:
             if old is not None:
                 env.put(name, old, perm)
             env.put("other.bin", b"bystander", 0o640)
-            path = os.path.join(env.w, name)
+            path = os.path.join(env.wdir, name)
             parg = pathlib.Path(path) if case.get("pathstyle") == "path" else path
             fn = {"bytes": A.atomic_write_bytes, "text": A.atomic_write_text, "json": A.atomic_write_json}[t]
             env.call = lambda: fn(parg, arg)
@@ -306,30 +719,42 @@ def prepare(case: dict, base_dir: Optional[str] = FAST_TMP) -> Env:
                 env.put("state_a1.json.meta", OLD_SIDECAR, 0o644)
             env.put("state_b2.json", b'{"schema_version":"v1","version_etag":"other"}', 0o644)
             st, etag, dl = _state(new_spec)
-            env.call = lambda: S.write_snapshot(ctx_for(env.w), st, etag, applied=len(dl), deltas=dl)
+            env.call = lambda: S.write_snapshot(ctx_for(env.wdir), st, etag, applied=len(dl), deltas=dl)
             f_body, f_meta = ref(FOLLOW, "r_follow")
             fst, fetag, fdl = _state(FOLLOW)
-            env.follow = (lambda: S.write_snapshot(ctx_for(env.w), fst, fetag, applied=len(fdl), deltas=fdl),
+            env.follow = (lambda: S.write_snapshot(ctx_for(env.wdir), fst, fetag, applied=len(fdl), deltas=fdl),
                           {"state_a1.json": f_body, "state_a1.json.meta": f_meta})
             env.dests = [Dest("state_a1.json", "body", old_body, new_body, perm if old_body is not None else None),
                          Dest("state_a1.json.meta", "sidecar", OLD_SIDECAR if old_body is not None else None, new_meta,
                               0o644 if old_body is not None else None)]
             env.suffixes = (".json", ".json.zst")
-        elif t in ("delta", "full"):
+        elif t in ("delta", "full", "fullz"):
             from clematis.engine import snapshot as S
             base_p = {"version_etag": "e1", "store": {"k0": {"id": 0, "s": "base", "w": 1.0}}, "n": 1}
             dmode = t == "delta"
+            comp = "zstd" if t == "fullz" else "none"
             name = "snapshot-e2.delta.json" if dmode else "snapshot-e2.full.json"
+            if t == "fullz":
+                # compression="zstd": '<name>.json.zst' with zstandard installed; without it the writer degrades to
+                # an uncompressed '<name>.json' (since repo fix 9f474a1; before, uncompressed under the .zst name).
+                # The destination name is whatever the fault-free writer chooses.
+                probe = _quiet_stderr(S.write_snapshot_auto)(env.scratch("r_name"), etag_from=None, etag_to="e2",
+                                                             payload=base_p, compression="zstd")[0]
+                name = os.path.basename(probe)
+                if name not in ("snapshot-e2.full.json", "snapshot-e2.full.json.zst"):
+                    raise Violation(f"fault-free write_snapshot_auto(compression='zstd') wrote {probe}", case, "baseline")
 
             def ref(spec, sub):
                 d = env.scratch(sub)
                 S.write_snapshot_auto(d, etag_from=None, etag_to="e1", payload=base_p)
                 p, wrote_delta = S.write_snapshot_auto(d, etag_from="e1", etag_to="e2", payload=_payload(spec),
-                                                       delta_mode=dmode)
+                                                       delta_mode=dmode, compression=comp)
                 if os.path.basename(p) != name or wrote_delta != dmode:
                     raise Violation(f"fault-free write_snapshot_auto wrote {p} delta={wrote_delta}", case, "baseline")
                 return _read(p), _read(p + ".meta")
 
+            if t == "fullz":  # zstandard is absent: every call prints a degrade warning on stderr
+                ref = _quiet_stderr(ref)
             new_body, new_meta = ref(new_spec, "r_new")
             S.write_snapshot_auto(env.w, etag_from=None, etag_to="e1", payload=base_p)
             env.seal()
@@ -339,11 +764,15 @@ def prepare(case: dict, base_dir: Optional[str] = FAST_TMP) -> Env:
                 env.put(name, old_body, perm)
                 env.put(name + ".meta", OLD_SIDECAR, 0o644)
             new_p = _payload(new_spec)
-            env.call = lambda: S.write_snapshot_auto(env.w, etag_from="e1", etag_to="e2", payload=new_p, delta_mode=dmode)
+            env.call = lambda: S.write_snapshot_auto(env.wdir, etag_from="e1", etag_to="e2", payload=new_p, delta_mode=dmode,
+                                                     compression=comp)
             f_body, f_meta = ref(FOLLOW, "r_follow")
             f_p = _payload(FOLLOW)
-            env.follow = (lambda: S.write_snapshot_auto(env.w, etag_from="e1", etag_to="e2", payload=f_p, delta_mode=dmode),
+            env.follow = (lambda: S.write_snapshot_auto(env.wdir, etag_from="e1", etag_to="e2", payload=f_p, delta_mode=dmode,
+                                                       compression=comp),
                           {name: f_body, name + ".meta": f_meta})
+            if t == "fullz":
+                env.call, env.follow = _quiet_stderr(env.call), (_quiet_stderr(env.follow[0]), env.follow[1])
             env.dests = [Dest(name, "body", old_body, new_body, perm if old_body is not None else None),
                          Dest(name + ".meta", "sidecar", OLD_SIDECAR if old_body is not None else None, new_meta,
                               0o644 if old_body is not None else None)]
@@ -360,7 +789,7 @@ def prepare(case: dict, base_dir: Optional[str] = FAST_TMP) -> Env:
             os.environ["CLEMATIS_LOG_DIR"] = env.scratch("r_follow")
             L.rewrite_jsonl("t1.jsonl", f_recs)
             f_new = _read(os.path.join(env.sandbox, "r_follow", "t1.jsonl"))
-            os.environ["CLEMATIS_LOG_DIR"] = env.w
+            os.environ["CLEMATIS_LOG_DIR"] = env.wdir
             old = None
             if old_spec is not None:
                 old = "".join(json.dumps(r, ensure_ascii=False) + "\n" for r in _records(old_spec)).encode("utf-8")
@@ -369,12 +798,12 @@ def prepare(case: dict, base_dir: Optional[str] = FAST_TMP) -> Env:
             env.put("t2.jsonl", b'{"turn":0}\n', 0o644)
 
             def call_jsonl():
-                os.environ["CLEMATIS_LOG_DIR"] = env.w
+                os.environ["CLEMATIS_LOG_DIR"] = env.wdir
                 L.rewrite_jsonl("t1.jsonl", recs)
             env.call = call_jsonl
 
             def follow_jsonl():
-                os.environ["CLEMATIS_LOG_DIR"] = env.w
+                os.environ["CLEMATIS_LOG_DIR"] = env.wdir
                 L.rewrite_jsonl("t1.jsonl", f_recs)
             env.follow = (follow_jsonl, {"t1.jsonl": f_new})
             env.dests = [Dest("t1.jsonl", "body", old, new, perm if old is not None else None)]
@@ -402,6 +831,8 @@ def _describe(content: Optional[bytes], d: Dest) -> str:
 def _case_of(env: Env, i: Optional[int], op: str, fault: str) -> dict:
     c = dict(env.case)
     c.update({"step": i, "step_op": op, "fault": fault})
+    if env.scope != "atomic":
+        c["scope"] = env.scope
     return c
 
 
@@ -476,6 +907,12 @@ def judge(env: Env, i: Optional[int], op: str, fault: F.Fault, res: F.ChildResul
     if leftovers:
         from clematis.engine.snapshot import _pick_latest_snapshot_path
         from clematis.scripts.rotate_logs import iter_targets
+        # body-parsing readers: always on small directories, on every third step on big ones (cost)
+        heavy = i is None or i % 3 == 0 or sum(len(v[0]) for v in obs.values()) < 100_000
+        diff = discovery_diff(env, leftovers, heavy)
+        if diff:
+            raise Violation(f"{where}: with the leftover temp file(s) {leftovers} in the directory, discovery/readers "
+                            f"answer differently than without them: {diff}{tail}", case, "discovery-sees-temp:" + diff[0][0])
         pick = _pick_latest_snapshot_path(env.w)
         if pick is not None and os.path.basename(pick) in leftovers:
             raise Violation(f"{where}: _pick_latest_snapshot_path selects the temp file {os.path.basename(pick)}{tail}",
@@ -510,10 +947,154 @@ def judge(env: Env, i: Optional[int], op: str, fault: F.Fault, res: F.ChildResul
     return labels
 
 
-def baseline(env: Env) -> F.ChildResult:
+def _run(env: Env, at: int = -1, fault: Optional[F.Fault] = None, fork: bool = True, kill2: Optional[int] = None) -> F.ChildResult:
+    """One execution of the case's write under the case's proxy scope with one fault armed."""
+    fault = fault or F.Fault()
+    if env.scope == "global":
+        return run_child(env.call, install_global, at=at, fault=fault, root=env.root, kill2=kill2)[0]
+    if kill2 is not None:
+        raise ValueError("fault sequences (fault, then kill) need scope 'global'")
+    if fault.is_kill or fork:
+        return run_child(env.call, install_atomic, at=at, fault=fault, root=env.root)[0]
+    return run_inproc_atomic(env.call, at=at, fault=fault)
+
+
+def install_atomic(inj: F.Injector) -> List[Tuple[Any, Dict[str, Any]]]:
+    """harness.faults' module-local proxies on clematis.io.atomic, with `open` handing out GFile (raw/buffered aware:
+    no short count from a buffered write; a failing flush()/close() loses the unflushed tail)."""
     import importlib
-    mods = [importlib.import_module(A_MOD)]
-    res = F.run_forked(env.call, mods)
+    saved = []
+    for m in [importlib.import_module(A_MOD)]:
+        sv = F.install(m, inj)
+
+        def open_(file, mode="r", *a, _inj=inj, **kw):
+            return _inj.step(f"open:{mode}", F._base(file) if not isinstance(file, int) else F._fd_name(file),
+                             lambda: GFile(_inj, _builtins.open(file, mode, *a, **kw)))
+        m.open = open_
+        saved.append((m, sv))
+    return saved
+
+
+def run_inproc_atomic(fn: Callable[[], Any], at: int = -1, fault: Optional[F.Fault] = None) -> F.ChildResult:
+    """harness.faults.run_inproc with install_atomic (non-kill faults only; proxies always removed again)."""
+    fault = fault or F.Fault()
+    if fault.is_kill:
+        raise F.ForkHarnessError("kill faults need a forked child")
+    inj = F.Injector(at, fault)
+    res = F.ChildResult()
+    saved = install_atomic(inj)
+    try:
+        try:
+            ret = fn()
+            res.outcome = "ok"
+            res.ret = ret if isinstance(ret, (str, int, float, bool, type(None))) else repr(ret)[:200]
+        except Exception as e:  # noqa: BLE001 - reported to the caller, which decides
+            res.outcome = "exc"
+            res.exc = {"type": type(e).__name__, "errno": getattr(e, "errno", None), "msg": str(e)[:300]}
+    finally:
+        for m, sv in reversed(saved):
+            F.restore(m, sv)
+    res.steps = list(inj.steps)
+    res.sleeps = inj.sleeps
+    return res
+
+
+def _relativize(x: Any, w: str) -> Any:
+    if isinstance(x, str):
+        return x.replace(w, "<w>")
+    if isinstance(x, dict):
+        return {str(k): _relativize(v, w) for k, v in x.items()}
+    if isinstance(x, (list, tuple)):
+        return [_relativize(v, w) for v in x]
+    if isinstance(x, (int, float, bool, type(None))):
+        return x
+    return repr(x)[:200]
+
+
+def _shape(x: Any, depth: int = 2) -> Any:
+    """Cheap fingerprint of a loaded payload: scalars and the key sets / lengths of the first levels."""
+    if isinstance(x, dict):
+        return {str(k): (_shape(v, depth - 1) if depth > 0 else type(v).__name__) for k, v in sorted(x.items(), key=lambda kv: str(kv[0]))} \
+            if len(x) <= 12 else {"__len__": len(x)}
+    if isinstance(x, (list, tuple)):
+        return [_shape(v, depth - 1) for v in x] if (len(x) <= 4 and depth > 0) else {"__len__": len(x)}
+    if isinstance(x, str):
+        return x if len(x) <= 80 else f"str[{len(x)}]"
+    if isinstance(x, (int, float, bool, type(None))):
+        return x
+    return type(x).__name__
+
+
+def discovery_view(w: str, heavy: bool = True) -> Dict[str, Any]:
+    """What every directory-scanning reader of the repository makes of `w` (snapshot discovery/loaders, snapshot
+    inspection/compaction globs, log rotation glob, frontend export). Exceptions of the code under test are part of
+    the answer (compared differentially), never a verdict by themselves."""
+    import contextlib
+    import importlib
+    from clematis.engine import snapshot as S
+    view: Dict[str, Any] = {}
+
+    def ask(key: str, fn: Callable[[], Any]) -> None:
+        sink = _io.StringIO()
+        try:
+            with contextlib.redirect_stdout(sink), contextlib.redirect_stderr(_io.StringIO()):
+                val = fn()
+            view[key] = _relativize(val, w)
+            if sink.getvalue():
+                view[key + ".stdout"] = sink.getvalue().replace(w, "<w>")
+        except Exception as e:  # noqa: BLE001 - answer of the code under test, compared with/without debris
+            view[key] = f"raised {type(e).__name__}"
+
+    ask("pick_latest", lambda: S._pick_latest_snapshot_path(w))
+
+    def load():
+        st: Dict[str, Any] = {}
+        ret = S.load_latest_snapshot(SimpleNamespace(cfg=None, config={"t4": {"snapshot_dir": w}}, agent_id="a1", turn_id=8), st)
+        g = st.get("graph") if isinstance(st.get("graph"), dict) else {}
+        return [ret, sorted(st), len(g.get("nodes") or ()), len(g.get("edges") or ())]
+    if heavy:  # the askers that parse whole bodies
+        ask("latest_info", lambda: S.get_latest_snapshot_info(w))
+        ask("load_latest", load)
+    stems = sorted({n.split(".json")[0] for n in os.listdir(w) if n.startswith("snapshot-") and ".json" in n})
+    for stem in stems + ["snapshot-e1.full", "snapshot-e2.full", "snapshot-e2.delta"]:
+        ask("find:" + stem, lambda stem=stem: S._find_snapshot_file(w, stem))
+    for etag in ("e1", "e2") if heavy else ():
+        ask("read:" + etag, lambda etag=etag: _shape(S.read_snapshot(root=w, etag_to=etag)))
+    ask("rotate_glob", lambda: sorted(importlib.import_module("clematis.scripts.rotate_logs").iter_targets(w, "*.jsonl")))
+    # the rotation tool with its own default --pattern, planning only (dry run never touches a file)
+    ask("rotate_dry_run", lambda: importlib.import_module("clematis.scripts.rotate_logs").main(
+        ["--dir", w, "--max-bytes", "0", "--backups", "2", "--dry-run"]))
+    if "rotate_dry_run.stdout" in view:
+        view["rotate_dry_run.stdout"] = sorted(view["rotate_dry_run.stdout"].splitlines())
+    ask("console_latest", lambda: importlib.import_module("clematis.scripts.console").find_latest_snapshot(pathlib.Path(w)))
+    ask("mem_inspect", lambda: importlib.import_module("scripts.mem_inspect").run(w, w, "json", False))
+    ask("mem_compact_plan", lambda: importlib.import_module("scripts.mem_compact").run(
+        w, os.path.join(os.path.dirname(w), "compact_out"), dtype=None, compression="none", level=3, delta=False,
+        dry_run=True))
+    if heavy:
+        ask("export_bundle", lambda: _shape(importlib.import_module(
+            "clematis.scripts.export_logs_for_frontend").build_run_bundle(logs_dir=w, snapshots_dir=w)[0:2], 3))
+    return view
+
+
+def discovery_diff(env: Env, leftovers: List[str], heavy: bool = True) -> List[Tuple[str, Any, Any]]:
+    """Metamorphic relation behind 'no temp file that discovery or log readers could mistake for real data': hiding
+    the leftover temp files must not change any answer. Returns [(question, with, without)]."""
+    with_debris = discovery_view(env.w, heavy)
+    hide = env.scratch("hidden")
+    for n in leftovers:
+        os.rename(os.path.join(env.w, n), os.path.join(hide, n))
+    try:
+        without = discovery_view(env.w, heavy)
+    finally:
+        for n in leftovers:
+            os.rename(os.path.join(hide, n), os.path.join(env.w, n))
+    return [(k, with_debris.get(k), without.get(k)) for k in sorted(set(with_debris) | set(without))
+            if with_debris.get(k) != without.get(k)]
+
+
+def baseline(env: Env) -> F.ChildResult:
+    res = _run(env)
     obs = env.observe()
     if res.outcome != "ok":
         raise Violation(f"fault-free {env.target} write raised {res.exc}", _case_of(env, None, "-", "none"), "baseline")
@@ -525,13 +1106,8 @@ def baseline(env: Env) -> F.ChildResult:
 def inject(env: Env, base: F.ChildResult, i: int, fname: str, rec, fork_errors: bool = True) -> Tuple[F.ChildResult, List[str]]:
     """One injection. Kills always run in a forked child; failing calls do too unless fork_errors is False (then the
     proxies are installed in-process and removed again — same injector, no process death needed)."""
-    import importlib
-    mods = [importlib.import_module(A_MOD)]
     fault = F.Fault.parse(fname)
-    if fault.is_kill or fork_errors:
-        res = F.run_forked(env.call, mods, at=i, fault=fault)
-    else:
-        res = F.run_inproc(env.call, mods, at=i, fault=fault)
+    res = _run(env, i, fault, fork_errors)
     obs = env.observe()
     try:
         labels = judge(env, i, base.steps[i][0], fault, res, obs, rec)
@@ -543,6 +1119,43 @@ def inject(env: Env, base: F.ChildResult, i: int, fname: str, rec, fork_errors: 
     finally:
         env.reset(env.observe())
     return res, labels
+
+
+SEQ_OPS = ("replace", "rename", "link")
+SEQ_FAULTS = ("transient1:EBUSY", "transient3:EACCES", "raise:EACCES", "raise:EIO")
+
+
+def inject_then_kill(env: Env, base: F.ChildResult, i: int, fname: str, first: F.ChildResult, rec, cap: int = 14) -> int:
+    """Fault SEQUENCE inside one write: the call at step i fails (`fname`: transiently or for good) and the process
+    dies at a later I/O boundary of the path taken BECAUSE of that failure (retry loop, fallback, cleanup) — steps that
+    no fault-free run ever shows.  `first` is the run with `fname` alone (its trace names those steps).  Judged as a
+    kill: destinations complete old/new, leftovers never discoverable, later write clean.  Returns #injections."""
+    fault = F.Fault.parse(fname)
+    later = list(range(i + 1, len(first.steps)))
+    if len(later) > cap:  # e.g. 80 retries of a persistent EACCES: the first ones, the last ones
+        later = later[:cap - 8] + later[-8:]
+    n = 0
+    for j in later:
+        res = _run(env, i, fault, True, kill2=j)
+        obs = env.observe()
+        try:
+            name = f"{fname}+kill@{j}"
+            if res.outcome != "killed":  # the path after the fault is not deterministic (e.g. jittered retries): skip
+                continue
+            labels = judge(env, i, base.steps[i][0], F.Fault("kill_before"), res, obs, rec, realfault=name)
+            if env.follow is not None:
+                follow_up(env, i, base.steps[i][0], name, res, obs)
+            n += 1
+            if rec is not None:
+                rec.case(nontrivial=True, dig=digest([env.target, i, fname, j, "seq"]),
+                         labels=labels + ["sequence=fault-then-kill", f"seq.first={fname.split(':')[0]}",
+                                          f"seq.kill-before={res.steps[j][0] if j < len(res.steps) else '?'}",
+                                          f"target={env.target}"],
+                         sample={"target": env.target, "first": f"{fname}@{i}:{base.steps[i][0]}",
+                                 "kill_before": f"{j}:{res.steps[j][0]}" if j < len(res.steps) else j} if j % 5 == 0 else None)
+        finally:
+            env.reset(env.observe())
+    return n
 
 
 def follow_up(env: Env, i: int, op: str, fname: str, res: F.ChildResult, before: Dict[str, Tuple[bytes, int]]):
@@ -579,8 +1192,19 @@ def first_temp_index(steps) -> int:
     return 0
 
 
+def step_sample(n: int, cap: int) -> List[int]:
+    """All n step indices, or — for a writer that issues very many I/O calls — the first/last ones and an even spread."""
+    if n <= cap:
+        return list(range(n))
+    head, tail = cap // 2, cap // 4
+    mid = cap - head - tail
+    idx = set(range(head)) | set(range(n - tail, n)) | {head + (k * (n - head - tail)) // mid for k in range(mid)}
+    return sorted(idx)
+
+
 def enumerate_case(case: dict, rec, on_violation: Optional[Callable[[Violation], None]], counter: List[int],
-                   shard: int = 0, nshards: int = 1, fork_errors: bool = True) -> None:
+                   shard: int = 0, nshards: int = 1, fork_errors: bool = True, extra_errnos: Tuple[str, ...] = (),
+                   step_cap: int = 80) -> None:
     """Baseline + every (step x fault) of one case. With on_violation=None the first Violation propagates."""
     try:
         env = prepare(case)
@@ -602,16 +1226,24 @@ def enumerate_case(case: dict, rec, on_violation: Optional[Callable[[Violation],
         oldp = case.get("old") is not None
         sc = f"{size_class(case.get('old'))}->{size_class(case['new'])}"
         if rec is not None:
-            rec.note(f"steps.{env.target}", [op for op, _d, _p in base.steps])
-        for i in range(S):
+            rec.note(f"steps.{env.target}" + ("" if env.scope == "atomic" else "." + env.scope),
+                     [op for op, _d, _p in base.steps])
+        nsz = case["new"].get("size") if isinstance(case.get("new"), dict) else None
+        dims = [f"scope={env.scope}", f"pathstyle={case.get('pathstyle', 'str')}",
+                "new-size=" + ("lit" if nsz is None else "0" if nsz == 0 else "<4K" if nsz < 4096 else "4K..8K" if nsz <= 8193
+                               else "8K..64K" if nsz < 65_536 else "64K..1M" if nsz <= (1 << 20) else ">1M"),
+                f"umask={oct(case['umask']) if case.get('umask') is not None else 'inherited'}"]
+        for i in step_sample(S, step_cap):
             op, _detail, has_partial = base.steps[i]
-            for fname in F.fault_kinds(has_partial):
+            for fname in fault_kinds_for(op, has_partial, env.scope, extra_errnos):
                 k = counter[0]
                 counter[0] += 1
                 if k % nshards != shard:
                     continue
                 try:
                     res, labels = inject(env, base, i, fname, rec, fork_errors)
+                    if env.scope == "global" and op in SEQ_OPS and fname in SEQ_FAULTS:
+                        inject_then_kill(env, base, i, fname, res, rec)
                 except Violation as v:
                     if on_violation is None:
                         raise
@@ -622,8 +1254,10 @@ def enumerate_case(case: dict, rec, on_violation: Optional[Callable[[Violation],
                 if rec is not None:
                     nt = i > t0
                     fk = fname.split(":")[0]
-                    rec.case(nontrivial=nt, dig=digest([env.target, op, i, fname, oldp, sc]),
-                             labels=labels + [f"target={env.target}", f"op={op}", f"fault={fk}", f"class={sc}"],
+                    rec.case(nontrivial=nt, dig=digest([env.target, op, i, fname, oldp, sc] +
+                                                       ([env.scope] if env.scope != "atomic" else [])),
+                             labels=labels + dims + [f"target={env.target}", f"op={op}", f"fault={fk}", f"class={sc}"] +
+                             ([f"errno={fname.split(':')[1]}"] if ":" in fname else []),
                              sample={"target": env.target, "class": sc, "perm": oct(case.get("perm", 0o644)), "step": i,
                                      "op": op, "fault": fname, "outcome": res.outcome, "of_steps": S} if nt and (k % 97 == 5) else None)
     finally:
@@ -662,9 +1296,53 @@ def matrix(depth: str) -> List[dict]:
                 if cls == "empty":
                     return _g(0, 9 + salt, style[t])
                 return _g(BIG, 11 + salt + ti, style[t])
-            out.append({"target": t, "old": spec(o, 100), "new": spec(n, 0), "perm": p,
-                        "pathstyle": "path" if (ti + ci) % 2 else "str"})
+            case = {"target": t, "old": spec(o, 100), "new": spec(n, 0), "perm": p,
+                    "pathstyle": ("str", "path", "rel")[(ti + ci) % 3]}
+            if (ti + ci) % 2 == 0:
+                case["umask"] = 0o077 if ci % 2 == 0 else 0o027  # the writer's umask must not decide the result's mode
+            out.append(case)
     return out
+
+
+def matrix_anywhere(depth: str) -> List[dict]:
+    """Cases of the process-wide enumeration: every target incl. the .json.zst name, payload sizes at the buffer
+    boundaries (4 KiB / 8 KiB / 64 KiB / 1 MiB)."""
+    style = {"bytes": "binary", "text": "crlf", "jsonl": "crlf"}
+    plan = {"bytes": [(65_537, 4096), (None, (1 << 20) + 1), (4095, 8192)],
+            "text": [(None, 8193), (8192, 65_536), (300, 0)],
+            "json": [(4097, 300), (None, 65_537), (300, 4096)],
+            "snapshot": [(300, 65_000), (None, 300), (8192, 4096)],
+            "delta": [(None, 300), (300, 8193), (65_537, 300)],
+            "jsonl": [(8192, 5000), (None, 65_537), (300, 300)],
+            "full": [(4096, 300), (None, 8192), (300, 65_537)],
+            "fullz": [(None, 700), (700, 8193), (8193, 300)]}
+    out = []
+    for ti, t in enumerate(TARGETS if depth == "quick" else ALL_TARGETS):  # fullz == full while zstandard is absent
+        for ci, (o, n) in enumerate(plan[t][:1 if depth == "quick" else 3]):
+            case = {"target": t, "old": None if o is None else _g(o, 200 + ti + ci, style.get(t, "unicode")),
+                    "new": _g(n, 300 + ti + ci, style.get(t, "unicode")), "perm": (0o640, 0o600, 0o444)[(ti + ci) % 3],
+                    "pathstyle": ("str", "rel", "path")[(ti + ci) % 3], "scope": "global"}
+            if (ti + ci) % 2:
+                case["umask"] = 0o077
+            out.append(case)
+    return out
+
+
+def sub_anywhere(rec, seed, shard, nshards, depth="quick", max_sigs=12):
+    counter = [0]
+    sigs: Dict[str, int] = {}
+
+    def on_v(v: Violation):
+        sigs[v.sig] = sigs.get(v.sig, 0) + 1
+        if sigs[v.sig] == 1 and len(sigs) <= max_sigs:
+            rec.violation(v.message, v.case, v.sig)
+
+    cases = matrix_anywhere(depth)
+    extra = tuple(EXTRA_ERRNOS_THOROUGH) if depth == "thorough" else ()
+    for case in cases:
+        enumerate_case(case, rec, on_v, counter, shard, nshards, True, extra)
+    rec.note("cases", len(cases))
+    rec.note("injections_total", counter[0])
 
 
 def sub_faults(rec, seed, shard, nshards, depth="quick", max_sigs=12, fork_errors=False):
@@ -677,8 +1355,9 @@ def sub_faults(rec, seed, shard, nshards, depth="quick", max_sigs=12, fork_error
             rec.violation(v.message, v.case, v.sig)
 
     cases = matrix(depth)
+    extra = tuple(EXTRA_ERRNOS_THOROUGH if depth == "thorough" else EXTRA_ERRNOS_QUICK)
     for case in cases:
-        enumerate_case(case, rec, on_v, counter, shard, nshards, fork_errors)
+        enumerate_case(case, rec, on_v, counter, shard, nshards, fork_errors, extra)
     rec.note("cases", len(cases))
     rec.note("injections_total", counter[0])
 
@@ -691,6 +1370,11 @@ def replay_fault(case):
     step, fname, op = case.pop("step", None), case.pop("fault", None), case.pop("step_op", None)
     if fname and fname.startswith("rlimit"):
         return _rlimit_one(case, int(fname.split(":")[1]), None)
+    kill2 = None
+    if fname and "+kill@" in fname:
+        fname, k2 = fname.split("+kill@")
+        kill2 = int(k2)
+        case["scope"] = "global"
     if step is None or fname in (None, "none"):
         return enumerate_case(case, None, None, [0])
     env = prepare(case)
@@ -702,7 +1386,11 @@ def replay_fault(case):
         else:
             idxs = [k for k, o in enumerate(ops) if o == op]
         for k in idxs:
-            if fname in F.fault_kinds(base.steps[k][2]):
+            if kill2 is not None:
+                first = _run(env, k, F.Fault.parse(fname), True)
+                env.reset(env.observe())
+                inject_then_kill(env, base, k, fname, first, None, cap=1 << 30)
+            elif fname in fault_kinds_for(base.steps[k][0], base.steps[k][2], env.scope, tuple(EXTRA_ERRNOS_THOROUGH)):
                 inject(env, base, k, fname, None)
     finally:
         env.close()
@@ -721,7 +1409,8 @@ def _strategies():
 
     def spec_for(t):
         gen = st.fixed_dictionaries({"seed": st.integers(0, 1 << 16),
-                                     "size": st.one_of(st.just(BIG), st.sampled_from([0, 1, 2, 4096, 65537, BIG + 1]),
+                                     "size": st.one_of(st.just(BIG), st.sampled_from([0, 1, 2, 4095, 4096, 8192, 8193, 65536, 65537,
+                                                                                      BIG + 1, (1 << 20) + 1]),
                                                        st.integers(1, 3000), st.integers(1, 3000)),
                                      "style": st.sampled_from(["ascii", "unicode", "crlf"] + (["binary"] if t == "bytes" else []))})
         if t == "bytes":
@@ -734,11 +1423,17 @@ def _strategies():
 
     @st.composite
     def cases(draw):
-        t = draw(st.sampled_from(TARGETS))
+        t = draw(st.sampled_from(ALL_TARGETS))
         new = draw(spec_for(t))
         old = draw(st.one_of(st.none(), spec_for(t), spec_for(t)))
-        return {"target": t, "old": old, "new": new, "perm": draw(st.sampled_from([0o644, 0o600, 0o444, 0o664, 0o640, 0o755])),
-                "pathstyle": draw(st.sampled_from(["str", "path"]))}
+        case = {"target": t, "old": old, "new": new, "perm": draw(st.sampled_from([0o644, 0o600, 0o444, 0o664, 0o640, 0o755])),
+                "pathstyle": draw(st.sampled_from(["str", "path", "rel"]))}
+        um = draw(st.sampled_from([None, None, 0o077, 0o027, 0o002]))
+        if um is not None:
+            case["umask"] = um
+        if draw(st.integers(0, 3)) == 0:
+            case["scope"] = "global"
+        return case
 
     return cases()
 
@@ -755,7 +1450,7 @@ def sub_gen(rec, seed, shard, nshards, n=3, shrink=False, fork_errors=True):
 # ------------------------------------------------------------------------------------------------ sub-check: rlimit
 
 
-def _rlimit_one(case: dict, limit: int, rec) -> None:
+def _rlimit_one(case: dict, limit: int, rec, env: Optional[Env] = None) -> None:
     import resource
     import signal
 
@@ -763,17 +1458,56 @@ def _rlimit_one(case: dict, limit: int, rec) -> None:
         signal.signal(signal.SIGXFSZ, signal.SIG_IGN)
         resource.setrlimit(resource.RLIMIT_FSIZE, (limit, limit))
 
-    env = prepare(case)
+    own = env is None
+    if own:
+        env = prepare(case)
     try:
+        n_new = len(env.dests[0].new)
+        if limit < 0:  # relative to the length of the new body: the limit falls into its last bytes
+            limit = max(0, n_new + limit)
         res = F.run_forked(env.call, [], prepare=prep)
         obs = env.observe()
+        if limit >= n_new + 4096 and res.outcome != "ok":  # no file of this write comes near the limit: as baseline()
+            raise Violation(f"fault-free {env.target} write of {n_new} bytes raised {res.exc}",
+                            _case_of(env, None, "write(2)", f"rlimit:{limit}"), "baseline")
         labels = judge(env, None, "write(2)", F.Fault(), res, obs, rec, realfault=f"rlimit:{limit}")
+        if res.outcome == "exc" and env.follow is not None:
+            follow_up(env, None, "write(2)", f"rlimit:{limit}", res, obs)
+            labels.append("follow-up-after=exc")
         if rec is not None:
-            rec.case(nontrivial=True, dig=digest([case, limit]), labels=labels + [f"target={env.target}"],
-                     sample={"target": env.target, "rlimit_fsize": limit, "outcome": res.outcome,
-                             "new_len": len(env.dests[0].new)})
+            where = "none" if limit >= n_new else ("tail" if n_new - limit <= 8192 else "inside")
+            rec.case(nontrivial=limit < n_new, dig=digest([case, limit]),
+                     labels=labels + [f"target={env.target}", f"limit-cuts={where}",
+                                      "new-len=" + ("<=4K" if n_new <= 4096 else "<=8K" if n_new <= 8192 else
+                                                    "<=64K" if n_new <= 65536 else "<=1M" if n_new <= (1 << 20) else ">1M")],
+                     sample={"target": env.target, "rlimit_fsize": limit, "outcome": res.outcome, "new_len": n_new})
+    finally:
+        if own:
+            env.close()
+        else:
+            env.reset(env.observe())
+
+
+def _rlimit_group(case: dict, limits, rec, k0: int, shard: int, nshards: int) -> bool:
+    """All limits of one case on one prepared sandbox (sharded by running index). False after a violation."""
+    mine = [lim for j, lim in enumerate(limits) if (k0 + j) % nshards == shard]
+    if not mine:
+        return True
+    try:
+        env = prepare(case)
+    except Violation as v:
+        rec.violation(v.message, v.case, v.sig)
+        return False
+    try:
+        for lim in mine:
+            try:
+                _rlimit_one(case, lim, rec, env)
+            except Violation as v:
+                rec.violation(v.message, v.case, v.sig)
+                return False
     finally:
         env.close()
+    return True
 
 
 def sub_rlimit(rec, seed, shard, nshards, targets=("bytes", "text", "json", "snapshot", "delta", "jsonl")):
@@ -782,25 +1516,280 @@ def sub_rlimit(rec, seed, shard, nshards, targets=("bytes", "text", "json", "sna
         for o in (None, _g(500, 21 + ti, "ascii")):
             case = {"target": t, "old": o, "new": _g(BIG, 31 + ti, "binary" if t == "bytes" else "ascii"), "perm": 0o644,
                     "pathstyle": "str"}
-            for limit in (0, 1, 4096, 100_000, 150_001):
-                k += 1
-                if k % nshards != shard:
-                    continue
-                try:
-                    _rlimit_one(case, limit, rec)
-                except Violation as v:
-                    rec.violation(v.message, v.case, v.sig)
-                    return
+            limits = (0, 1, 4096, 100_000, 150_001)
+            if not _rlimit_group(case, limits, rec, k, shard, nshards):
+                return
+            k += len(limits)
+    # payload sizes around the userspace/pipe/slice buffer boundaries (4 KiB, 8 KiB, 64 KiB, 1 MiB); the limit falls
+    # into the LAST bytes of the new body (what a buffered writer still holds when it closes the file), into its last
+    # buffer-full, or into the middle
+    for ti, t in enumerate(tuple(targets) + ("full",)):
+        sizes = [0, 700, 4096, 8192 + 37, 30_000, 65_536 + 1] + ([(1 << 20) + 7] if t in ("bytes", "jsonl") else [])
+        for si, size in enumerate(sizes):
+            case = {"target": t, "old": _g(600, 41 + ti, "ascii") if (ti + si) % 2 else None,
+                    "new": _g(size, 51 + ti + si, "binary" if t == "bytes" else "ascii"), "perm": 0o644, "pathstyle": "str"}
+            # size 0: an EMPTY new content, written without any limit in the way (the replacement must still happen)
+            limits = (-1, -700, -5000, -(size // 2)) if size else (1 << 40,)
+            if not _rlimit_group(case, limits, rec, k, shard, nshards):
+                return
+            k += len(limits)
+
+
+# ------------------------------------------------------------------------------------------------ sub-check: kernel
+#
+# Destinations that are not plain files, judged through the PATH a reader would open: a directory in the place of the
+# destination (os.replace fails with EISDIR/ENOTEMPTY for real, not retryable) and a symbolic link (to a file in another
+# directory, or dangling).  Faults are real (the kernel's answer, RLIMIT_FSIZE) or kills at every step (process-wide
+# proxies).
+
+
+def _tree(root: str) -> Dict[str, Any]:
+    out: Dict[str, Any] = {}
+    for dp, dns, fns in os.walk(root):
+        for n in sorted(dns + fns):
+            p = os.path.join(dp, n)
+            rel = os.path.relpath(p, root)
+            if os.path.islink(p):
+                out[rel] = ("link", os.readlink(p))
+            elif os.path.isdir(p):
+                out[rel] = ("dir",)
+            else:
+                out[rel] = ("file", _read(p))
+    return out
+
+
+def kernel_case(case: dict, rec) -> None:
+    """case: {"target", "destkind": "dir"|"symlink"|"dangling", "old": spec, "new": spec, "fault": None|"rlimit:N"|
+    "kills"}"""
+    import resource
+    import signal
+    t, kind, fault = case["target"], case["destkind"], case.get("fault")
+    env = prepare({"target": t, "old": case.get("old") if kind == "symlink" else None, "new": case["new"], "perm": 0o644,
+                   "pathstyle": "str", "scope": "global"})
+    try:
+        d = env.dests[0]
+        path = os.path.join(env.w, d.name)
+        elsewhere = env.scratch("elsewhere")
+        real = os.path.join(elsewhere, "real-" + d.name)
+        if kind == "dir":
+            os.mkdir(path)
+            with open(os.path.join(path, "keep.txt"), "wb") as f:
+                f.write(b"user data")
+        else:
+            if kind == "symlink":
+                os.rename(path, real)
+            os.symlink(os.path.join("..", "elsewhere", "real-" + d.name), path)
+        old = d.old if kind == "symlink" else None
+        before_w, before_e = _tree(env.w), _tree(elsewhere)
+        c = dict(case)
+
+        def check(res: F.ChildResult, what: str) -> List[str]:
+            where = f"kernel/{t}: destination is a {kind}, {what}: outcome={res.outcome}" + \
+                    (f" exc={res.exc['type']}(errno={res.exc['errno']})" if res.exc else "")
+            now_w, now_e = _tree(env.w), _tree(elsewhere)
+            try:
+                via = _read(path) if not os.path.isdir(path) else None
+            except FileNotFoundError:
+                via = None
+            others = [n for n in env.dest_names if n != d.name]
+            if kind == "dir":
+                if os.path.isdir(path):
+                    if now_w.get(os.path.join(d.name, "keep.txt")) != ("file", b"user data"):
+                        raise Violation(f"{where}: the content of the directory standing in the destination's place was "
+                                        f"destroyed", c, "kernel-dir-content")
+                    if res.outcome == "ok":
+                        raise Violation(f"{where}: the call returned normally although nothing could be written",
+                                        c, "kernel-dir-ok")
+                elif via != d.new:
+                    raise Violation(f"{where}: the directory was removed and the path does not hold the complete new "
+                                    f"content", c, "kernel-dir-content")
+            else:
+                if via not in (old, d.new) or (res.outcome == "ok" and via != d.new):
+                    raise Violation(f"{where}: reading the destination path yields neither the complete old nor the "
+                                    f"complete new content (len {None if via is None else len(via)}, old "
+                                    f"{None if old is None else len(old)}, new {len(d.new)})", c, "kernel-link-partial")
+                tgt = now_e.get("real-" + d.name)
+                if tgt is not None and tgt not in (("file", old), ("file", d.new)):
+                    raise Violation(f"{where}: the link's target file is neither the complete old nor the complete new "
+                                    f"content", c, "kernel-link-target-partial")
+                if tgt is None and kind == "symlink":
+                    raise Violation(f"{where}: the link's target file was removed", c, "kernel-link-target-partial")
+            if res.outcome != "killed":
+                extra = sorted(n for n in now_w if n not in before_w and n not in others) + \
+                        sorted("elsewhere/" + n for n in now_e if n not in before_e and n != "real-" + d.name)
+                if extra:
+                    raise Violation(f"{where}: temp file(s) {extra} left behind", c, "kernel-leftover")
+            for n, v in before_w.items():
+                if n.split(os.sep)[0] not in env.dest_names and now_w.get(n) != v:
+                    raise Violation(f"{where}: unrelated file {n!r} changed", c, "kernel-bystander")
+            return [f"outcome={res.outcome}", f"destkind={kind}", f"target={t}"]
+
+        def restore():
+            for root, before in ((env.w, before_w), (elsewhere, before_e)):
+                now = _tree(root)
+                for n in sorted(now, reverse=True):
+                    if n not in before or now[n] != before[n]:
+                        p = os.path.join(root, n)
+                        shutil.rmtree(p) if (os.path.isdir(p) and not os.path.islink(p)) else os.unlink(p)
+                for n in sorted(before):
+                    p = os.path.join(root, n)
+                    if not os.path.lexists(p):
+                        v = before[n]
+                        if v[0] == "dir":
+                            os.mkdir(p)
+                        elif v[0] == "link":
+                            os.symlink(v[1], p)
+                        else:
+                            with open(p, "wb") as f:
+                                f.write(v[1])
+
+        if fault == "kills":
+            base, _ = run_child(env.call, install_global, root=env.root)
+            labels = check(base, "no fault")
+            restore()
+            n = 0
+            for i in step_sample(len(base.steps), 60):
+                for fk in ("kill_before", "kill_mid") if base.steps[i][2] else ("kill_before",):
+                    res, _ = run_child(env.call, install_global, at=i, fault=F.Fault(fk), root=env.root)
+                    check(res, f"{fk} step {i}:{base.steps[i][0]}")
+                    restore()
+                    n += 1
+            if rec is not None:
+                rec.case(nontrivial=True, dig=digest(case), labels=labels + ["fault=kills"], n=n,
+                         sample={"target": t, "destkind": kind, "kills": n})
+            return
+        prep = None
+        if fault and fault.startswith("rlimit:"):
+            limit = int(fault.split(":")[1])
+
+            def prep():
+                signal.signal(signal.SIGXFSZ, signal.SIG_IGN)
+                resource.setrlimit(resource.RLIMIT_FSIZE, (limit, limit))
+        res = F.run_forked(env.call, [], prepare=prep)
+        labels = check(res, fault or "no fault")
+        if rec is not None:
+            rec.case(nontrivial=True, dig=digest(case), labels=labels + [f"fault={(fault or 'none').split(':')[0]}"],
+                     sample={"target": t, "destkind": kind, "fault": fault, "outcome": res.outcome,
+                             "exc": res.exc and res.exc["type"]})
+    finally:
+        env.close()
+
+
+def nonio_case(case: dict, rec) -> None:
+    """A write that fails for a reason other than an I/O call — the payload cannot be serialised/encoded to its end
+    (unserialisable object, lone surrogate, a record iterator that raises) — possibly after a long good prefix.
+    case: {"target": "json"|"text"|"jsonl", "why": "object"|"surrogate"|"iterator", "old": spec|None, "prefix": int}.
+    Oracle: the call raised => destination is the complete old content (or absent) and no temp file is left; it
+    returned => no temp file is left and the destination is not the old content cut short."""
+    import importlib
+    A = importlib.import_module(A_MOD)
+    t, why, n = case["target"], case["why"], int(case.get("prefix", 200))
+    env = prepare({"target": t, "old": case.get("old"), "new": _g(50, 1, "ascii"), "perm": 0o644, "pathstyle": "str"})
+    try:
+        d = env.dests[0]
+        path = os.path.join(env.w, d.name)
+        good = [{"turn": i, "text": "x" * 40, "agent": "a1"} for i in range(n)]
+        if t == "json":
+            obj = {"items": good, "zz_last": object() if why == "object" else "tail \ud800"}
+            call = lambda: A.atomic_write_json(path, obj)  # noqa: E731
+        elif t == "text":
+            call = lambda: A.atomic_write_text(path, "line of text\n" * (n * 4) + "tail \udfff")  # noqa: E731
+        else:
+            from clematis.io import log as L
+
+            def records():
+                yield from good
+                if why == "iterator":
+                    raise ValueError("record source failed")
+                yield {"turn": n, "text": "tail \ud800" if why == "surrogate" else object()}
+
+            def call():
+                os.environ["CLEMATIS_LOG_DIR"] = env.w
+                L.rewrite_jsonl("t1.jsonl", records())
+        res = F.run_forked(call, [])
+        obs = env.observe()
+        where = f"nonio/{t}: payload fails to serialise ({why}) after {n} good records: outcome={res.outcome}" + \
+                (f" exc={res.exc['type']}" if res.exc else "")
+        c = dict(case)
+        for nme, v in env.initial.items():
+            if nme not in env.dest_names and obs.get(nme) != v:
+                raise Violation(f"{where}: unrelated file {nme!r} changed", c, "nonio-bystander")
+        left = sorted(x for x in obs if x not in env.initial and x not in env.dest_names)
+        if left:
+            raise Violation(f"{where}: temp file(s) {left} left behind by the failed write", c, "nonio-leftover")
+        cur = obs.get(d.name)
+        content = None if cur is None else cur[0]
+        if res.outcome == "exc" and content != d.old:
+            raise Violation(f"{where}: the call raised but {d.name} no longer holds the complete previous content "
+                            f"({_describe(content, d)}, len {None if content is None else len(content)})", c, "nonio-partial")
+        if res.outcome == "ok" and d.old and content is not None and len(content) < len(d.old) and d.old.startswith(content):
+            raise Violation(f"{where}: {d.name} holds the old content cut short", c, "nonio-partial")
+        if rec is not None:
+            rec.case(nontrivial=True, dig=digest(case), labels=[f"nonio.target={t}", f"nonio.why={why}",
+                                                                f"outcome={res.outcome}"],
+                     sample={"target": t, "why": why, "prefix": n, "outcome": res.outcome, "exc": res.exc and res.exc["type"]})
+    finally:
+        env.close()
+
+
+def sub_kernel(rec, seed, shard, nshards, targets=("bytes", "json", "snapshot", "full", "jsonl")):
+    k = 0
+    for t, why in (("json", "object"), ("json", "surrogate"), ("text", "surrogate"), ("jsonl", "object"),
+                   ("jsonl", "surrogate"), ("jsonl", "iterator")):
+        for old, prefix in ((_g(3000, 81, "ascii"), 400), (None, 3)):
+            k += 1
+            if k % nshards != shard:
+                continue
+            try:
+                nonio_case({"target": t, "why": why, "old": old, "prefix": prefix}, rec)
+            except Violation as v:
+                rec.violation(v.message, v.case, v.sig)
+                return
+    for ti, t in enumerate(targets):
+        style = "binary" if t == "bytes" else "unicode"
+        for kind, fault in (("dir", None), ("symlink", None), ("symlink", "rlimit:100"), ("dangling", None),
+                            ("symlink", "kills"), ("dangling", "rlimit:1")):
+            k += 1
+            if k % nshards != shard:
+                continue
+            case = {"target": t, "destkind": kind, "old": _g(2000, 61 + ti, style), "new": _g(900, 71 + ti, style),
+                    "fault": fault}
+            try:
+                kernel_case(case, rec)
+            except Violation as v:
+                rec.violation(v.message, v.case, v.sig)
+                return
+
+
+def replay_kernel(case):
+    if "why" in case:
+        return nonio_case(case, None)
+    kernel_case(case, None)
 
 
 # ------------------------------------------------------------------------------------------------ sub-check: readers
 
 
-def _reader_loop(path: str, a: bytes, b: bytes, stop: Callable[[], bool], out: dict) -> None:
+def _reader_loop(path: str, a: bytes, b: bytes, stop: Callable[[], bool], out: dict,
+                 extra: Optional[List[Tuple[str, List[bytes]]]] = None) -> None:
+    """`extra`: further destinations of the same write (sidecars) with their allowed complete contents."""
     reads = na = nb = switches = 0
     last = None
     bad = None
     while not stop():
+        for xp, allowed in extra or ():
+            try:
+                with open(xp, "rb") as f:
+                    xd = f.read()
+            except FileNotFoundError:
+                bad = {"kind": "absent", "file": os.path.basename(xp), "read_no": reads}
+                break
+            if xd not in allowed:
+                bad = {"kind": "prefix" if any(x.startswith(xd) for x in allowed) else "mixed",
+                       "file": os.path.basename(xp), "len": len(xd), "read_no": reads}
+                break
+        if bad:
+            break
         try:
             with open(path, "rb") as f:
                 data = f.read()
@@ -833,6 +1822,7 @@ def readers_case(case: dict, rec) -> None:
         eb = prepare({"target": t, "old": None, "new": case["b"], "perm": 0o644, "pathstyle": "str"}, base_dir=None)
         try:  # B only supplies its reference content and a writer re-pointed at A's work directory
             contents = [ea.dests[0].new, eb.dests[0].new]
+            extra = [(os.path.join(ea.w, da.name), [da.new, db.new]) for da, db in zip(ea.dests[1:], eb.dests[1:])]
             call_b = _retarget(eb, ea)
         finally:
             eb.close()
@@ -852,7 +1842,8 @@ def readers_case(case: dict, rec) -> None:
                 os.close(ctl_w)
                 os.close(res_r)
                 out: dict = {}
-                _reader_loop(dest, contents[0], contents[1], lambda: bool(select.select([ctl_r], [], [], 0)[0]), out)
+                _reader_loop(dest, contents[0], contents[1], lambda: bool(select.select([ctl_r], [], [], 0)[0]), out,
+                             extra)
                 os.write(res_w, json.dumps(out).encode())
                 code = 0
             finally:
@@ -861,7 +1852,8 @@ def readers_case(case: dict, rec) -> None:
         os.close(res_w)
         stop_flag = {"v": False}
         tout: dict = {}
-        th = threading.Thread(target=_reader_loop, args=(dest, contents[0], contents[1], lambda: stop_flag["v"], tout))
+        th = threading.Thread(target=_reader_loop,
+                              args=(dest, contents[0], contents[1], lambda: stop_flag["v"], tout, extra))
         th.start()
         werr = None
         try:
@@ -929,26 +1921,139 @@ def _retarget(eb: Env, ea: Env) -> Callable[[], Any]:
     if t in ("bytes", "text", "json"):
         arg, _ = materialize_simple(t, case["new"])
         fn = {"bytes": A.atomic_write_bytes, "text": A.atomic_write_text, "json": A.atomic_write_json}[t]
-        path = os.path.join(ea.w, ea.dests[0].name)
+        path = os.path.join(ea.wdir, ea.dests[0].name)
         return lambda: fn(path, arg)
     if t == "snapshot":
         from clematis.engine import snapshot as S
         st, etag, dl = _state(case["new"])
-        ctx = SimpleNamespace(cfg=None, config={"t4": {"snapshot_dir": ea.w}}, agent_id="a1", turn_id=7)
+        ctx = SimpleNamespace(cfg=None, config={"t4": {"snapshot_dir": ea.wdir}}, agent_id="a1", turn_id=7)
         return lambda: S.write_snapshot(ctx, st, etag, applied=len(dl), deltas=dl)
-    if t in ("delta", "full"):
+    if t in ("delta", "full", "fullz"):
         from clematis.engine import snapshot as S
         p = _payload(case["new"])
-        return lambda: S.write_snapshot_auto(ea.w, etag_from="e1", etag_to="e2", payload=p, delta_mode=(t == "delta"))
+        call = lambda: S.write_snapshot_auto(ea.wdir, etag_from="e1", etag_to="e2", payload=p, delta_mode=(t == "delta"),  # noqa: E731
+                                             compression="zstd" if t == "fullz" else "none")
+        return _quiet_stderr(call) if t == "fullz" else call
     if t == "jsonl":
         from clematis.io import log as L
         recs = _records(case["new"])
 
         def call():
-            os.environ["CLEMATIS_LOG_DIR"] = ea.w
+            os.environ["CLEMATIS_LOG_DIR"] = ea.wdir
             L.rewrite_jsonl("t1.jsonl", recs)
         return call
     raise ValueError(t)
+
+
+# ------------------------------------------------------------------------------------------------ sub-check: writers
+
+
+def writers_case(case: dict, rec) -> None:
+    """Two writers to the SAME destination, interleaved deterministically at every I/O call boundary.
+    case: {"target", "old": spec|None, "a": spec, "b": spec, "pause": [indices]|None}.  Writer A (process-wide proxies,
+    forked) is stopped before its step i; writer B (this process, undisturbed) then performs a complete write; A goes
+    on.  No fault is injected.  Oracle: when B has returned every destination holds exactly B's content; at the end
+    every destination holds completely A's, B's or the old content (A's or B's when both calls returned); nothing else
+    in the directory changed and no temp file is left."""
+    t = case["target"]
+    ea = prepare({"target": t, "old": case.get("old"), "new": case["a"], "perm": 0o644, "pathstyle": "str",
+                  "scope": "global"})
+    try:
+        eb = prepare({"target": t, "old": None, "new": case["b"], "perm": 0o644, "pathstyle": "str"})
+        try:
+            b_new = {d.name: d.new for d in eb.dests}
+            call_b = _retarget(eb, ea)
+        finally:
+            eb.close()
+        base = baseline(ea)
+        steps = [op for op, _d, _p in base.steps]
+        idxs = case.get("pause")
+        if idxs is None:
+            idxs = step_sample(len(steps), 60)
+        if rec is not None:
+            rec.note(f"steps.{t}", steps)
+        for i in idxs:
+            if not 0 <= i < len(steps):
+                continue
+            c = dict(case, pause=[i])
+            where = f"writers/{t}: writer A stopped before step {i}:{steps[i]}, writer B wrote completely, A resumed"
+            at_pause: Dict[str, Any] = {}
+
+            def on_pause():
+                try:
+                    call_b()
+                    at_pause["b"] = "ok"
+                except Exception as e:  # noqa: BLE001 - judged below: B raising is no violation by itself
+                    at_pause["b"] = f"raised {type(e).__name__}: {e}"
+                at_pause["obs"] = ea.observe()
+
+            res, paused = run_child(ea.call, install_global, root=ea.root, pause_at=i, on_pause=on_pause)
+            obs = ea.observe()
+            try:
+                if not paused:
+                    raise RuntimeError(f"{where}: the pause point was not reached ({res.trace()})")
+                allowed = {d.name: {"A": d.new, "B": b_new[d.name], "old": d.old} for d in ea.dests}
+                for phase, o in (("while A was stopped, after B returned", at_pause["obs"]), ("at the end", obs)):
+                    for n, v in ea.initial.items():
+                        if n not in ea.dest_names and o.get(n) != v:
+                            raise Violation(f"{where}: {phase} the unrelated file {n!r} had changed", c, "writers-bystander")
+                    for d in ea.dests:
+                        cur = o.get(d.name)
+                        content = None if cur is None else cur[0]
+                        who = [k for k, v in allowed[d.name].items() if v == content]
+                        if not who:
+                            lens = {k: (None if v is None else len(v)) for k, v in allowed[d.name].items()}
+                            raise Violation(f"{where}: {phase} {d.name} holds neither writer's complete content nor the "
+                                            f"old one (len {None if content is None else len(content)}; {lens}; A "
+                                            f"{res.outcome}, B {at_pause['b']})", c, "writers-mixed")
+                        if phase.startswith("while") and at_pause["b"] == "ok" and "B" not in who:
+                            raise Violation(f"{where}: B returned normally but {d.name} does not hold B's content "
+                                            f"(holds {who})", c, "writers-b-lost")
+                        if phase == "at the end" and at_pause["b"] == "ok" and res.outcome == "ok" and who == ["old"] \
+                                and d.old not in (d.new, b_new[d.name]):
+                            raise Violation(f"{where}: both writers returned normally but {d.name} still holds the old "
+                                            f"content", c, "writers-both-lost")
+                left = sorted(n for n in obs if n not in ea.initial and n not in ea.dest_names)
+                if left:
+                    raise Violation(f"{where}: temp file(s) {left} left behind although no writer was killed (A "
+                                    f"{res.outcome}, B {at_pause['b']})", c, "writers-leftover")
+                if rec is not None:
+                    final = "+".join(sorted({k for d in ea.dests for k, v in allowed[d.name].items()
+                                             if obs.get(d.name) is not None and v == obs[d.name][0] and k != "old"}))
+                    rec.case(nontrivial=True, dig=digest([t, i, size_class(case["a"]), size_class(case["b"]),
+                                                          case["a"]["size"] < case["b"]["size"]]),
+                             labels=[f"target={t}", f"pause-op={steps[i]}", f"A={res.outcome}",
+                                     f"B={at_pause['b'].split(':')[0]}", f"final={final}",
+                                     "A-shorter" if case["a"]["size"] < case["b"]["size"] else "A-longer"],
+                             sample={"target": t, "pause_before": f"{i}:{steps[i]}", "A": res.outcome, "B": at_pause["b"],
+                                     "final": final} if i % 7 == 3 else None)
+            finally:
+                ea.reset(ea.observe())
+    finally:
+        ea.close()
+
+
+def sub_writers(rec, seed, shard, nshards, targets=("bytes", "snapshot", "jsonl", "delta")):
+    rng = random.Random(seed)
+    k = 0
+    for t in targets:
+        style = "binary" if t == "bytes" else "crlf"
+        for sizes in ((900, 70_000), (70_000, 900)):
+            sa, sb, so = rng.randrange(1 << 16), rng.randrange(1 << 16), rng.randrange(1 << 16)
+            k += 1
+            if k % nshards != shard:
+                continue
+            case = {"target": t, "old": _g(333, so, style), "a": _g(sizes[0], sa, style), "b": _g(sizes[1], sb, style),
+                    "pause": None}
+            try:
+                writers_case(case, rec)
+            except Violation as v:
+                rec.violation(v.message, v.case, v.sig)
+                return
+
+
+def replay_writers(case):
+    writers_case(case, None)
 
 
 def sub_readers(rec, seed, shard, nshards, rounds=200, per_target=1):
@@ -1016,11 +2121,17 @@ def probe_tmp_close() -> bool:
 KNOWN_PROBES = {KNOWN_SHORT: probe_short_write, KNOWN_TMPCLOSE: probe_tmp_close}
 
 SUBCHECKS = [
-    Sub("faults", sub_faults, quick={"depth": "quick"}, thorough={"depth": "thorough"}, shards_quick=4, shards_thorough=16,
+    Sub("faults", sub_faults, quick={"depth": "quick"}, thorough={"depth": "thorough"}, shards_quick=6, shards_thorough=16,
         exhaustive=True, replay=replay_fault),
-    Sub("gen", sub_gen, quick={"n": 3, "shrink": False}, thorough={"n": 24, "shrink": True}, shards_quick=2,
+    Sub("gen", sub_gen, quick={"n": 3, "shrink": False}, thorough={"n": 18, "shrink": True}, shards_quick=2,
         shards_thorough=12, exhaustive=True, replay=replay_fault),
-    Sub("rlimit", sub_rlimit, quick={}, thorough={}, shards_quick=1, shards_thorough=2, exhaustive=False,
+    Sub("anywhere", sub_anywhere, quick={"depth": "quick"}, thorough={"depth": "thorough"}, shards_quick=2,
+        shards_thorough=8, exhaustive=True, replay=replay_fault),
+    Sub("writers", sub_writers, quick={}, thorough={"targets": tuple(ALL_TARGETS)}, shards_quick=1, shards_thorough=4,
+        exhaustive=True, replay=replay_writers),
+    Sub("kernel", sub_kernel, quick={}, thorough={"targets": tuple(ALL_TARGETS)}, shards_quick=1, shards_thorough=2,
+        exhaustive=False, replay=replay_kernel),
+    Sub("rlimit", sub_rlimit, quick={}, thorough={}, shards_quick=1, shards_thorough=4, exhaustive=False,
         replay=replay_fault),
     Sub("readers", sub_readers, quick={"rounds": 200, "per_target": 1}, thorough={"rounds": 3000, "per_target": 3},
         shards_quick=2, shards_thorough=6, exhaustive=False, replay=replay_readers),
